@@ -14,6 +14,7 @@ import struct
 import unittest.mock
 
 from common import hx, setup_repo_import
+from lib import doip2 as TWO
 from lib import doipsys as SYS
 from vloop import MemWriter, Stall, vrun
 
@@ -32,9 +33,18 @@ ASSUMPTIONS = [
     "schedule `yields`; wall-clock latency of the alive-check reply is outside the model ('within the alive-check time' is "
     "proved and checked as 'in the reader-task step that parsed the request, before the next frame is handled, at the "
     "virtual instant the request is complete')",
-    "one client task uses the connection (a call issued while another one is pending is not part of the model; concurrent "
-    "users of one client are property C05); between two events the loop comes to rest, i.e. a client call starts when the "
-    "reader task has parsed what has arrived",
+    "the models have one client task (concurrent users of one client are property C05); between two events the loop comes "
+    "to rest, i.e. a client call starts when the reader task has parsed what has arrived.  Two client tasks on one "
+    "connection - one blocked in read() with / without timeout while the other writes and then reads - are driven against "
+    "the real code with a reactive gateway (the request of the writer goes on the wire when the blocked read lets go of "
+    "the connection mutex, so the instant of the acknowledgement depends on the code) and judged WITHOUT a model run by the "
+    "clauses of the property on the implementation's own trace (lib/doip2.py `facts`, like clause S9 of C07): every write "
+    "ends as the gateway acknowledged that request (never acknowledged: connection error within the acknowledgement "
+    "time), reads of both tasks in the order they return ++ what is still queued = the target->source messages in wire "
+    "order, frames no call accepted are still queued, every alive check answered at its arrival, no call hangs; what the "
+    "mutex buys is stated on the queue level as `doip_blocked_reader_serialised`",
+    "message sizes: the only bound is the 32 bit payload length field (`doip_delivers_any_length`); driven up to 70000 "
+    "bytes of user data / request, sizes around 4095 exhaustively",
     "exact ties are not generated: a gateway segment arriving at the very instant a call starts or a timer expires (the "
     "order of equal-time callbacks is an event-loop detail; the model lets timers go first and the caller's timer, armed "
     "first, win against the 2 s protocol timer); a caller timeout of 0 (asyncio.wait_for special-cases it)",
@@ -106,6 +116,12 @@ def arrivals(op, ver):
     return out
 
 
+def _size_tag(fd):
+    """payload size of a large frame (part of the key: a size-dependent defect is a different defect)"""
+    n = max((len(x) // 2 for x in fd if isinstance(x, str)), default=0)
+    return f"[{n}B]" if n > 32 else ""
+
+
 def shape(script):
     cfg = script["cfg"]
     parts = []
@@ -115,9 +131,11 @@ def shape(script):
             s += f"({op['atype']})"
         if op["op"] in ("write", "connect"):
             s += "<2000" if op["tmo"] < 2000 else ""
+        if op["op"] == "write" and len(op["data"]) > 64:
+            s += f"[{len(op['data']) // 2}B]"
         fr = op.get("frames") or []
         if fr:
-            s += "{" + ",".join(kind_of(f, cfg) for f in fr) + "}"
+            s += "{" + ",".join(kind_of(f, cfg) + _size_tag(f) for f in fr) + "}"
             if op.get("cuts"):
                 s += "/cut"
         parts.append(s)
@@ -326,6 +344,11 @@ def judge(script, impl, model):
     return j
 
 
+def _short(txt):
+    """a long message abbreviated for the report (the replay file has the complete case)"""
+    return txt if len(txt) <= 120 else f"{txt[:60]}..({len(txt)} chars)..{txt[-24:]}"
+
+
 def _judge(script, impl, model):
     src, tgt, ver = script["cfg"]
     alive_resp = struct.pack("!BBHL", ver, ver ^ 0xFF, 0x0008, 2).hex() + struct.pack("!H", src).hex()
@@ -358,7 +381,8 @@ def _judge(script, impl, model):
                 return ("write-result", bool(viol), f"op {i}: write gives {a['res']}, acknowledgement rule gives {b['res']}")
             if op["op"] == "read":
                 viol = ra.startswith("msg:") or rb.startswith("msg:") or ra.startswith("exc:") or ra == "stall"
-                return ("read-result", bool(viol), f"op {i}: read gives {a['res']}, frames in arrival order give {b['res']}")
+                return ("read-result", bool(viol),
+                        f"op {i}: read gives {_short(a['res'])}, frames in arrival order give {_short(b['res'])}")
             if op["op"] == "connect":
                 viol = (ra == "ok") != (rb == "ok") or ra.startswith("exc:") or ra == "stall"
                 return ("connect-result", bool(viol), f"op {i}: connect gives {a['res']}, response code rule gives {b['res']}")
@@ -613,6 +637,71 @@ def gen_scripts(ctx):
     yield (("connect:timing", {"cfg": list(CFGS[0]), "ops": [{"op": "connect", "atype": 0, "tmo": 5000}]}))
     ctx.exhaustive_parts.append("routing activation request bytes for all 256 activation types (x protocol versions "
                                 "{0,1,2,3,255}, boundary addresses); all 256 routing activation response codes")
+
+    # 7. message sizes: DoIP carries a 32 bit payload length and knows no 4095 byte (ISO-TP) limit.  Diagnostic messages
+    # with user data of every size class in every phase; requests of every size class acknowledged with the request
+    # echoed completely / partially / not at all / wrongly, whole and cut inside the large frame
+    yield from gen_sizes(ctx)
+
+
+SIZES = [0, 1, 4090, 4091, 4094, 4095, 4096, 4097, 65535, 70000]
+
+
+def sized(n, first):
+    return (bytes([first & 0xFF]) + bytes((i * 7 + 3) & 0xFF for i in range(max(n - 1, 0))))[:n]
+
+
+def gen_sizes(ctx):
+    rng = ctx.rng
+    n_scripts = 0
+    sizes = list(SIZES) + [rng.choice([2, 255, 256, 4092, 4093, 4098, 4099, 4100, 8191, 65536, rng.randrange(5, 70000)])
+                           for _ in range(ctx.pick(2, 8))]
+    for i, n in enumerate(sizes):
+        cfg = CFGS[0] if i % 3 else CFGS[i % len(CFGS)]
+        src, tgt, ver = cfg
+        okack = ["ackp", tgt, src, ""]
+        big = ["diag", tgt, src, sized(n, 0x62).hex()]
+        other = ["diag", (tgt + 1) & 0xFFFF, src, sized(n, 0x7F).hex()]
+        small = ["diag", tgt, src, "6209"]
+        L = len(enc(big, ver))
+        for frames in ([big], [big, small], [small, big], [other, big], [["alive", ""], big, ["alive", ""]]):
+            for pos in POSITIONS:
+                d0 = 300 if pos in ("ack", "read") else 10
+                yield (f"sizes:diag:{pos}", template(frames, pos, cfg))
+                n_scripts += 1
+            k = rng.choice([1, 7, 8, 9, 12, L // 2, L - 1, rng.randrange(1, L)])
+            pos = rng.choice(POSITIONS)
+            d0 = 300 if pos in ("ack", "read") else 10
+            if 0 < k < L:
+                yield (f"sizes:diag-cut:{pos}", template(frames, pos, cfg, cuts=[[k, d0 + 40]]))
+                n_scripts += 1
+        req = sized(n, 0x36)
+        echoes = {"full": req, "half": req[:n // 2], "one": req[:1], "none": b"", "all-but-one": req[:max(n - 1, 0)],
+                  "longer": req + b"\x00", "wrong-last": req[:-1] + bytes([req[-1] ^ 1]) if n else b"\x01"}
+        for ename, echo in echoes.items():
+            for kind in ("ackp", "ackn6", "ackn3"):
+                if kind != "ackp" and ename not in ("full", "none", "wrong-last"):
+                    continue
+                if kind == "ackp":
+                    ack = ["ackp", tgt, src, echo.hex()]
+                else:
+                    ack = ["ackn", tgt, src, int(kind[4:]), echo.hex()]
+                for pre in ([], [small]):
+                    yield (f"sizes:write:{ename}", {"cfg": list(cfg), "ops": [
+                        op_write(data=req, frames=pre + [ack, big], delay=300), op_read(200), op_read(200),
+                        op_write(frames=[okack], delay=5)]})
+                    n_scripts += 1
+        La = len(enc(["ackp", tgt, src, req.hex()], ver))
+        k = rng.choice([8, 13, La // 2, La - 1])
+        if 0 < k < La:
+            yield ("sizes:write-cut", {"cfg": list(cfg), "ops": [
+                op_write(data=req, frames=[["ackp", tgt, src, req.hex()], small], delay=300, cuts=[[k, 700]]),
+                op_read(200), op_read(200)]})
+            n_scripts += 1
+    ctx.exhaustive_parts.append(
+        f"message sizes {SIZES} (+ seeded ones): diagnostic messages with that much user data alone / before / behind "
+        f"other frames x injection position, requests of that size acknowledged (positive / TargetUnreachable / refused) "
+        f"with the request echoed completely, partially, not at all, too long or wrong in the last byte ({n_scripts} scripts)")
 
 
 # --------------------------------------------------------------------------------------------------------------
@@ -1027,6 +1116,174 @@ def run_sys(ctx, pool):
     ctx.notes["sys_alive_replies"] = alive_total
 
 
+
+# --------------------------------------------------------------------------------------------------------------
+# two client tasks on one connection (lib/doip2.py): one blocked in read() while the other writes, then reads
+
+T2_A = {"R": lambda tmo: [[10, "read", tmo]], "R;R": lambda tmo: [[10, "read", tmo], [20, "read", 300]]}
+T2_B = {
+    "W;R": [[200, "write", W1], [30, "read", 500]],
+    "W;R;W;R": [[200, "write", W1], [30, "read", 500], [30, "write", W2], [30, "read", 500]],
+    "W;W;R;R": [[200, "write", W1], [30, "write", W2], [30, "read", 500], [30, "read", 500]],
+}
+T2_ACKS = ["ap", "a1", "an", "ax", "none", "ao", "a-wrong-echo"]
+T2_ARR = ["ack,resp", "ack+resp", "resp,ack", "alive+ack,foreign+resp", "foreign,ack,alive,resp"]
+T2_UNSOL = {
+    "-": [], "dT@105": [[105, ["dT"]]], "dT@405": [[405, ["dT"]]], "dO@150,dT@1205": [[150, ["dO"]], [1205, ["dT"]]],
+    "al@150,al@230": [[150, ["al"]], [230, ["al"]]], "dT+dO@105,al@215,dT@520": [[105, ["dT", "dO"]], [215, ["al"]], [520, ["dT"]]],
+}
+
+
+def t2_script(cfg, aname, tmo, bname, acks, arr, uname, drain=1):
+    src, tgt, _ = cfg
+    n = [0]
+
+    def fr(cls, req=None, k=0):
+        if cls == "dT":
+            n[0] += 1
+            return ["diag", tgt, src, bytes([0x6A, n[0]]).hex()]
+        if cls == "resp":
+            return ["diag", tgt, src, bytes([int(req[:2], 16) + 0x40, k]).hex() + req[2:]]
+        if cls == "dO":
+            n[0] += 1
+            return ["diag", (tgt + 1) & 0xFFFF, src, bytes([0x7F, n[0]]).hex()]
+        if cls == "al":
+            return ["alive", ""]
+        if cls == "ap":
+            return ["ackp", tgt, src, ""]
+        if cls == "a1":
+            return ["ackp", tgt, src, req]
+        if cls == "an":
+            return ["ackn", tgt, src, 6, ""]
+        if cls == "ax":
+            return ["ackn", tgt, src, 3, req]
+        if cls == "ao":
+            return ["ackp", (tgt + 1) & 0xFFFF, src, ""]
+        if cls == "a-wrong-echo":
+            return ["ackp", tgt, src, "99"]
+        raise ValueError(cls)
+
+    gw = [[t, [fr(c) for c in cls]] for t, cls in T2_UNSOL[uname]]
+    on_req = []
+    reqs = [e[2] for e in T2_B[bname] if e[1] == "write"]
+    for k, (req, ack) in enumerate(zip(reqs, acks)):
+        a = [] if ack == "none" else [fr(ack, req)]
+        r = [fr("resp", req, k)]
+        if arr == "ack,resp":
+            b = [[7, a], [57, r]]
+        elif arr == "ack+resp":
+            b = [[7, a + r]]
+        elif arr == "resp,ack":
+            b = [[7, r], [27, a]]
+        elif arr == "alive+ack,foreign+resp":
+            b = [[7, [fr("al")] + a], [57, [fr("dO")] + r]]
+        else:
+            b = [[3, [fr("dO")]], [7, a], [11, [fr("al")]], [57, r]]
+        on_req.append([x for x in b if x[1]])
+    return {"two": 1, "cfg": list(cfg), "drain": drain, "A": T2_A[aname](tmo), "B": [list(e) for e in T2_B[bname]],
+            "gw": gw, "on_req": on_req,
+            "shape": f"A={aname}({tmo})|B={bname}|acks={','.join(acks)}|{arr}|unsolicited={uname}" + ("" if drain else "|nodrain")}
+
+
+def gen_two_tasks(ctx):
+    rng = ctx.rng
+    n = 0
+    for aname in T2_A:
+        for tmo in (300, 1000, 3000, None):
+            for bname, prog in T2_B.items():
+                nw = sum(1 for e in prog if e[1] == "write")
+                for ack in T2_ACKS:
+                    for arr in T2_ARR:
+                        for uname, uns in T2_UNSOL.items():
+                            if tmo is None and not any("dT" in cls for _, cls in uns):
+                                continue  # a read without timeout needs a message to return at all
+                            acks = [ack] + [rng.choice(T2_ACKS[:4]) for _ in range(nw - 1)]
+                            if nw > 1 and rng.random() < 0.5:
+                                acks.reverse()
+                            cfg = CFGS[0] if rng.random() < 0.8 else rng.choice(CFGS)
+                            n += 1
+                            yield t2_script(cfg, aname, tmo, bname, acks, arr, uname, drain=0 if rng.random() < 0.15 else 1)
+    ctx.exhaustive_parts.append(
+        f"two client tasks on one connection: task A {list(T2_A)} blocked in read() with timeout 300 / 1000 / 3000 ms / none "
+        f"from 10 ms on x task B {list(T2_B)} from 200 ms on x reactive gateway: acknowledgement {T2_ACKS} x arrangement of "
+        f"acknowledgement, response, foreign frame and alive check {T2_ARR} x unsolicited frames {list(T2_UNSOL)} ({n} scripts)")
+
+
+def _two_worker(scripts):
+    setup_repo_import()
+    return [TWO.run_impl(s, enc) for s in scripts]
+
+
+def _two_candidates(s):
+    for who in ("B", "A"):
+        for i in reversed(range(len(s[who]))):
+            yield dict(s, **{who: s[who][:i] + s[who][i + 1:]})
+    for i in reversed(range(len(s["gw"]))):
+        yield dict(s, gw=s["gw"][:i] + s["gw"][i + 1:])
+    for k, b in enumerate(s["on_req"]):
+        for i in reversed(range(len(b))):
+            for j in reversed(range(len(b[i][1]))):
+                b2 = [list(x) for x in b]
+                b2[i] = [b[i][0], b[i][1][:j] + b[i][1][j + 1:]]
+                yield dict(s, on_req=s["on_req"][:k] + [[x for x in b2 if x[1]]] + s["on_req"][k + 1:])
+
+
+def _two_shape(s):
+    cfg = s["cfg"]
+
+    def calls(cs):
+        return ";".join(f"W({e[2]})@{e[0]}" if e[1] == "write" else f"R({e[2]})@{e[0]}" for e in cs)
+    gw = ",".join(f"{t}:" + "+".join(kind_of(f, cfg) for f in fr) for t, fr in s["gw"])
+    rq = "/".join(",".join(f"+{d}:" + "+".join(kind_of(f, cfg) for f in fr) for d, fr in b) for b in s["on_req"])
+    return f"A[{calls(s['A'])}]|B[{calls(s['B'])}]|gw[{gw}]|on-request[{rq}]" + ("" if s.get("drain", 1) else "|nodrain")
+
+
+def run_two(ctx, pool):
+    scripts = list(gen_two_tasks(ctx))
+    if pool is not None and len(scripts) > 500:
+        impls = [r for p in pool.map(_two_worker, _chunks(scripts, 64)) for r in p]
+    else:
+        impls = [TWO.run_impl(s, enc) for s in scripts]
+    seen = {}
+    for s, impl in zip(scripts, impls):
+        ctx.ev()
+        ctx.kind("two-tasks:" + s["shape"].split("|")[0], "two-tasks:" + s["shape"].split("|")[1])
+        ctx.nontrivial("two:" + s["shape"])
+        for d in impl["done"]:
+            ctx.kind(f"two-result:{d[0]}:{d[1]}:" + d[5].split(":")[0])
+        bad = TWO.facts(s, impl)
+        if bad:
+            lst = seen.setdefault(bad[0][0], [0, []])
+            lst[0] += 1
+            lst[1].append(s)
+            lst[1].sort(key=lambda c: (len(json.dumps(c)), json.dumps(c, sort_keys=True)))
+            del lst[1][2:]
+    ctx.traces_validated += len(scripts)
+    ctx.notes["two_task_scripts"] = len(scripts)
+    if scripts:
+        k = min(len(scripts) - 1, 777)
+        ctx.sample({"label": "two-tasks", "script": scripts[k]["shape"], "impl": impls[k]["done"]})
+    for aspect, (count, cases) in seen.items():
+        for s in cases:
+            cur, budget, improved = s, 50, True
+            while improved and budget > 0:
+                improved = False
+                for cand in _two_candidates(cur):
+                    budget -= 1
+                    if budget <= 0:
+                        break
+                    b = TWO.facts(cand, TWO.run_impl(cand, enc))
+                    if b and b[0][0] == aspect:
+                        cur, improved = cand, True
+                        break
+            cur = {k: v for k, v in cur.items() if k != "shape"}
+            impl = TWO.run_impl(cur, enc)
+            b = TWO.facts(cur, impl)
+            text = b[0][1] if b else "(not reproduced after shrinking)"
+            ctx.disagree(f"doip2:{aspect}:{_two_shape(cur)}", f"{text} [{count} two-task scripts fail this clause]", cur,
+                         impl=impl, model="property clauses on the implementation's trace (no model run)",
+                         spec_violated=True, site="gallia.transports.doip.DoIPConnection.read_frame / write_request_raw")
+
 # --------------------------------------------------------------------------------------------------------------
 # shrinking
 
@@ -1138,6 +1395,7 @@ def run(ctx):
         if batch:
             process(batch)
         run_sys(ctx, pool)
+        run_two(ctx, pool)
     finally:
         if pool is not None:
             pool.terminate()
@@ -1159,6 +1417,14 @@ def run(ctx):
 def replay(ctx, case):
     setup_repo_import()
     script = case.get("case", case)
+    if "two" in script:
+        impl = TWO.run_impl(script, enc)
+        print("script:", _two_shape(script))
+        for k, v in impl.items():
+            print(f"   {k:9}: {v}")
+        bad = TWO.facts(script, impl)
+        print("verdict:", bad)
+        return bool(bad)
     if "gw" in script:
         return replay_sys(ctx, script)
     impl = run_impl(script)
@@ -1225,13 +1491,17 @@ MANIFEST = {
                    "length 2 (3 over a reduced alphabet) x every placement into 5 instants, acknowledgements around both kinds of "
                    "deadline followed by further writes, bursts of 33-80 unconsumed frames with alive checks behind them, frames then "
                    "end of stream then calls, seeded scripts of 2-6 calls and 0-8 frames at generated times with cuts inside frames, "
-                   "both drain schedules; compared call by call (result, instant) and as whole executions (every byte written with its "
+                   "both drain schedules; message sizes 0 / 1 / 4090..4097 / 65535 / 70000 (user data of diagnostic messages in every phase, "
+                   "requests with the acknowledgement echoing all / part / nothing / too much of them); two client tasks (blocked "
+                   "reader + writer) x acknowledgement kinds x arrangements x unsolicited frames against a reactive gateway, judged "
+                   "by the property clauses on the trace; compared call by call (result, instant) and as whole executions (every byte written with its "
                    "instant, the reader's trace of frames handled / alive checks answered, final queue, closed flag)."),
     "level_note": ("Trusted: Lean kernel (axioms propext, Quot.sound, Classical.choice), asyncio contracts (StreamReader."
                    "readexactly, Queue FIFO / non-suspending get on a non-empty queue, wait_for cancellation, Lock release), struct, "
                    "the generator and the harness (incl. the script-to-event-list runner in the driver). Partial: kernel TCP "
                    "behaviour, real drain() back-pressure and wall-clock latency of the alive-check reply are not modelled; one client "
-                   "task (concurrent users are C05); client calls start when the loop has come to rest; exact ties of timers / arrivals "
+                   "task in the models (two tasks on one connection are checked on the implementation's traces only; concurrent users "
+                   "of one client are C05); client calls start when the loop has come to rest; exact ties of timers / arrivals "
                    "are not generated; the write / read outcome theorems assume the reader task survives the continuation (what "
                    "happens when it does not is proved separately: the call ends in that very event, with the frame it was woken with or "
                    "a connection error; bounded-time recovery is C08)."),
